@@ -160,6 +160,7 @@ def memsim_ops(config, flags):
                 reg(f'op_view_mask<{t},{n}>', 'view_mask')
                 if n >= 3:
                     reg(f'op_view_index<{t},{n},{max(1, n // 2)}>', 'view_index')
+                    reg(f'op_noalias1<{t},{n}>', 'view_noalias', keep=n in (5, 9, 17, 33))
                 if fp:
                     reg(f'op_map_math<{t},{n}>', 'map_ew', 'F_ANYALIGN')
                     reg(f'op_own_math<{t},{n}>', 'own_ew')
@@ -181,6 +182,8 @@ def memsim_ops(config, flags):
             reg(f'op_reshape<{t},{m},{n}>', 'reshape')
             reg(f'op_own_expr<{t},{m},{n}>', 'own_ew')
             reg(f'op_view_mask<{t},{m},{n}>', 'view_mask')
+            if m >= 2 and n >= 2:
+                reg(f'op_noalias2<{t},{m},{n}>', 'view_noalias')
             reg(f'op_raw_transpose<{t},{m},{n}>', 'raw_transpose')
             if checks:
                 reg(f'op_badindex2<{t},{m},{n}>', 'badindex', 'F_BADINDEX')
@@ -193,6 +196,8 @@ def memsim_ops(config, flags):
             reg(f'op_colmajor<{t},{m},{n},{p}>', 'layout')
             reg(f'op_permute3<{t},{m},{n},{p}>', 'permute')
             reg(f'op_permute_expr<{t},{m},{n},{p}>', 'permute_expr', keep=True)
+            if p >= 2:
+                reg(f'op_noalias3<{t},{m},{n},{p}>', 'view_noalias')
             reg(f'op_own_reduce<{t},{m},{n},{p}>', 'own_reduce')
             if t != 'Int64':
                 reg(f'op_einsum_3<{t},{m},{n},{p}>', 'einsum')
